@@ -9,7 +9,11 @@ use super::types::{FixtureDefinition, FixtureScope, FixtureUsage};
 use super::FixtureDatabase;
 use rustpython_parser::ast::{ArgWithDefault, Arguments, Expr, Stmt};
 use rustpython_parser::{parse, Mode};
+#[cfg(not(pytest_language_server_verif))]
 use std::collections::HashSet;
+// verification hook: solver-friendly set/map stand-ins of the harness crate (see /verif/DESIGN.md §9)
+#[cfg(pytest_language_server_verif)]
+use crate::verif_collections::HashSet;
 use std::path::{Path, PathBuf};
 use tracing::{debug, info};
 
